@@ -1,3 +1,4 @@
+import QeepProps.C02
 import QeepProps.C04
 import QeepProps.C05
 import QeepProps.C06
